@@ -4,3 +4,5 @@ from . import rules_d  # noqa: F401
 from . import rules_x  # noqa: F401
 from . import rules_t  # noqa: F401
 from . import rules_g  # noqa: F401
+from . import rules_k  # noqa: F401
+from . import rules_rna  # noqa: F401
